@@ -12,7 +12,8 @@ EXPLANATION = ('(R05.1/R05.2/R05.3) kinematic_singularity of OPWKinematics is ab
                '(R05.2b) the J5~0 / J5~pi discriminator of the recovery is applied to the corrected angle (ring normal form, s*s = 1); '
                '(R05.4) recovery structure: J4 and J6 of the recovered candidate are previous + the same increment, which is half of the '
                'reduced sum difference, and the candidate is gated by the FK check against the unshifted pose and by the limits.  '
-               'Continuity of the first answer on well-conditioned postures is numerical and not decided.')
+               '(R05.7) every wrapper (Tool, Base, Frame, Parallelogram, robot with shape) answers kinematic_singularity with the answer of the '
+               'robot it wraps.  Continuity of the first answer on well-conditioned postures is numerical and not decided.')
 NOT_DECIDED = 'that the first continuation answer equals the previous joints on well-conditioned postures (numerics of the shifted re-solve)'
 ASSUMPTIONS = ['f64::rem_euclid, abs and comparisons follow IEEE-754 (interval transfer functions are outward rounded)']
 
@@ -34,6 +35,28 @@ def run(ctx):
     ks = prog.trait_impl_method(opw.OPW, 'Kinematics', 'kinematic_singularity')
     ctx.require(ks is not None, 'OPWKinematics::kinematic_singularity')
     ctx.fn(ks)
+    # the report is asked through whatever wraps the robot: every wrapper hands the question on, unchanged, and returns the answer
+    ctx.rule('R05.7', 'every wrapper answers kinematic_singularity with the inner robot\'s answer for the same joints')
+    kf = util.kin_fields(prog)
+    nw = 0
+    for w in [x for x in util.kin_impls(prog) if x in kf]:
+        wb = prog.trait_impl_method(w, 'Kinematics', 'kinematic_singularity')
+        if wb is None:
+            continue
+        ctx.fn(wb)
+        nw += 1
+        v = util.virtual_calls(wb)
+        ok = False
+        found = None
+        if len(v) == 1:
+            bi, t, name = v[0]
+            rt = strip(wb.return_term())
+            ct = strip(wb.call_term(t, (bi, None)))
+            found = show(rt, maxdepth=3)
+            ok = name == 'kinematic_singularity' and util.is_self_field(wb.op_term(t['args'][0], (bi, None)), kf[w]) and rt == ct
+        ctx.check(ok, 'R05.7', w + '/kinematic_singularity', wb.where(0), wb.path,
+                  'the wrapper must return the inner robot\'s kinematic_singularity(..)', found=found)
+    ctx.floor('R05.7 wrappers', nw, 5)
     ctx.rule('R05.6', 'constants of the singularity helpers that stand for pi, 2*pi or pi/180 are exact')
     util.pi_constants(ctx, 'R05.6', [ks] + [prog.bodies[t['callee']['resolved']] for _, t in ks.calls() if t['callee'].get('local') and t['callee'].get('resolved') in prog.bodies])
     n = 0
